@@ -263,7 +263,7 @@ def r4_every_error(ctx):
     seg_write = [c for c in A.calls_in(f) if A.call_target(c) == ('self.fd', 'write') and 'class="seg"' in ast.unparse(c)]
     if seg_write:
         pcs = [norm(e) for e, s in _format_pieces(seg_write[0].args[0])]
-        ok = pcs[:1] == ['cur_line'] and any('_seg_str' in p for p in pcs)
+        ok = pcs[:1] in (['cur_line'], ['src.cur_line']) and any('_seg_str' in p for p in pcs)
         yield Ob('error_html:error_html.gen_seg segment line = line number + segment text', ok, ctx.floc(f), '' if ok else 'pieces %s' % pcs)
     # all elements of the segment are rendered: range(1, len(seg_data) + 1)
     rng = [n for n in ast.walk(f) if isinstance(n, ast.For) and isinstance(n.iter, ast.Call) and path_of(n.iter.func) == 'range'
